@@ -35,8 +35,8 @@ structure Kind where
   /-- async machine constructed with `queued='model'`: `_transition_queue_dict` is a real dict
       keyed by `id(model)` (with `queued=True/False` it is a key-less mock / unused) -/
   qmodel : Bool := false
-  /-- async class: `AsyncTransition._change_state` marks the previous state on the graph but never
-      the new active one (the sync `TransitionGraphSupport._change_state` does) -/
+  /-- async class (no locked async class exists; `queued='model'` is theirs).  As repaired (845cafc) the
+      async `_change_state` styles the new active state like the sync one. -/
   asyncio : Bool := false
   deriving DecidableEq, Repr, Inhabited
 
@@ -237,7 +237,7 @@ def fire (k : Kind) (Î´ : Delta) (M : PM) (cs : List Nat) (ep m ev : Nat) : PM Ã
       -- `TransitionGraphSupport._change_state`: `model_graphs[id(event_data.model)]` before the change
       if (alookup m M.graphs).isNone then (M, .keyError m)
       else ({ M with mstate := aset m dst M.mstate,
-                     graphs := aset m (if k.asyncio then 0 else dst + 1) M.graphs }, .done cs true dst)
+                     graphs := aset m (dst + 1) M.graphs }, .done cs true dst)
     else ({ M with mstate := aset m dst M.mstate }, .done cs true dst)
 
 def trigger (k : Kind) (Î´ : Delta) (held : List Nat) (M : PM) (ep m ev : Nat) : PM Ã— Obs :=
